@@ -49,6 +49,38 @@ type DagCase struct {
 	CancelAt int              `json:"cancelat"` // controller step at which the context is cancelled (-1: never)
 	Shared   bool             `json:"shared,omitempty"` // run a second graph sharing the Task objects concurrently
 	BigOut   bool             `json:"bigout,omitempty"` // odd tasks write more than 64 KiB per attempt
+	Names    bool             `json:"names,omitempty"`  // task IDs are words with separators, spaces, case twins instead of numbers
+}
+
+// IDs handed to the library: the decimal number, or (Names) a word chosen so that IDs contain each other,
+// path and field separators, blanks, upper case and non-ASCII letters
+var idWords = []string{"", "pkg", "deb", "pkg/deb", "a:b", "A", "a", "x y", "é", "deb/pkg", "1", "g:1", "pkg/deb/pkg", "Task", "error:", "%s"}
+
+func (c *DagCase) tname(id int) string {
+	if id == 0 {
+		return ""
+	}
+	if !c.Names {
+		return strconv.Itoa(id)
+	}
+	if id < len(idWords) {
+		return idWords[id]
+	}
+	return "t" + strconv.Itoa(id)
+}
+
+func (c *DagCase) tid(name string) int {
+	if !c.Names {
+		n, _ := strconv.Atoi(name)
+		return n
+	}
+	for i, w := range idWords {
+		if i > 0 && w == name {
+			return i
+		}
+	}
+	n, _ := strconv.Atoi(strings.TrimPrefix(name, "t"))
+	return n
 }
 
 func (t TRef) proto() string {
@@ -290,6 +322,7 @@ type dagRun struct {
 	graphs        map[*dag.Graph]int
 	g2events      []dagEvent
 	sharedNow     map[int]*int32
+	g2ran         []int32 // per task: its function has returned in the second graph
 	second        int32 // set once the first Run has returned
 	secondEntered int32
 }
@@ -304,7 +337,9 @@ func resOf(err error) string {
 		return "ok"
 	case errors.Is(err, dag.ErrorSkipParents):
 		return "skip"
-	case errors.Is(err, dag.ErrorTaskSkipped):
+	case err == dag.ErrorTaskSkipped:
+		// the scheduler's own completion for a vertex it did not start (a task's error that merely wraps
+		// the sentinel is a failure like any other)
 		return "tskip"
 	}
 	return "err"
@@ -413,8 +448,21 @@ func (r *dagRun) taskFn(id int, gno int) getoptions.CommandFn {
 				r.violate(fmt.Sprintf("task %d executes twice at the same time (two graphs share it)", id))
 				r.mu.Unlock()
 			}
+			// ordering inside the second graph: every dependency has run (there) and returned
+			if iv := r.ig.v[id]; iv != nil {
+				for _, d := range iv.children {
+					if d < len(r.g2ran) && atomic.LoadInt32(&r.g2ran[d]) == 0 {
+						r.mu.Lock()
+						r.violate(fmt.Sprintf("second graph: task %d entered although its dependency %d has not returned there", id, d))
+						r.mu.Unlock()
+					}
+				}
+			}
 			time.Sleep(200 * time.Microsecond)
 			atomic.AddInt32(cnt, -1)
+			if id < len(r.g2ran) {
+				atomic.StoreInt32(&r.g2ran[id], 1)
+			}
 			return nil
 		}
 		cnt := r.sharedNow[id]
@@ -532,7 +580,7 @@ func installDagHook() {
 		if !ok || gno != 0 {
 			return // a second graph sharing the tasks, or a late goroutine of an earlier run
 		}
-		n, _ := strconv.Atoi(string(id))
+		n := r.c.tid(string(id))
 		switch kind {
 		case "recv":
 			r.rec(dagEvent{Kind: "recv", V: n, R: resOf(err)})
@@ -560,6 +608,7 @@ func runDagCase(c *DagCase, d *Driver) *DagResult {
 		}
 	}
 	r.data = make([]int64, maxID+2)
+	r.g2ran = make([]int32, maxID+2)
 	dag.Logger.SetOutput(ioutil.Discard)
 	tasks := map[string]*dag.Task{}
 	// A "fresh" reference is a new *Task object with the same ID - but the same object in every graph
@@ -578,10 +627,7 @@ func runDagCase(c *DagCase, d *Driver) *DagResult {
 		} else if tk, ok := tasks[key]; ok {
 			return tk
 		}
-		id := ""
-		if t.ID != 0 {
-			id = strconv.Itoa(t.ID)
-		}
+		id := c.tname(t.ID)
 		var fn getoptions.CommandFn
 		if !t.NoFn {
 			fn = func(ctx context.Context, opt *getoptions.GetOpt, args []string) error {
@@ -596,11 +642,14 @@ func runDagCase(c *DagCase, d *Driver) *DagResult {
 			r.sharedNow[t.ID] = new(int32)
 			// a third of the failing tasks fail with an error that wraps a context error: to the
 			// scheduler it is a task failure like any other
-			switch (int64(t.ID) + r.c.CtlSeed%3) % 3 {
+			// ... and some wrap the library's own sentinel for "not started" (a task that ran a nested graph)
+			switch (int64(t.ID) + r.c.CtlSeed%4) % 4 {
 			case 0:
 				r.taskErrs[t.ID] = fmt.Errorf("task-%d-failed", t.ID)
 			case 1:
 				r.taskErrs[t.ID] = fmt.Errorf("task-%d-failed: %w", t.ID, context.Canceled)
+			case 2:
+				r.taskErrs[t.ID] = fmt.Errorf("task-%d-failed: %w", t.ID, dag.ErrorTaskSkipped)
 			default:
 				r.taskErrs[t.ID] = fmt.Errorf("task-%d-failed: %w", t.ID, context.DeadlineExceeded)
 			}
@@ -637,7 +686,7 @@ func runDagCase(c *DagCase, d *Driver) *DagResult {
 					} else if derr == nil {
 						seen := map[int]bool{}
 						for _, v := range sorted {
-							n, _ := strconv.Atoi(string(v.ID))
+							n := c.tid(string(v.ID))
 							if pv, ok := pre.v[n]; ok {
 								for _, ch := range pv.children {
 									if !seen[ch] {
@@ -680,23 +729,23 @@ func runDagCase(c *DagCase, d *Driver) *DagResult {
 	realCanon := func() string {
 		ids := []int{}
 		for id := range g.Vertices {
-			n, _ := strconv.Atoi(string(id))
+			n := c.tid(string(id))
 			ids = append(ids, n)
 		}
 		sort.Ints(ids)
 		parts := []string{}
 		for _, id := range ids {
-			v := g.Vertices[dag.ID(strconv.Itoa(id))]
+			v := g.Vertices[dag.ID(c.tname(id))]
 			ch, pa := []int{}, []int{}
 			for _, x := range v.Children {
-				n, _ := strconv.Atoi(string(x.ID))
+				n := c.tid(string(x.ID))
 				ch = append(ch, n)
 				if g.Vertices[x.ID] != x {
 					res.Violations = append(res.Violations, fmt.Sprintf("vertex %d depends on a vertex object for %s that is not the one registered in the graph", id, x.ID))
 				}
 			}
 			for _, x := range v.Parents {
-				n, _ := strconv.Atoi(string(x.ID))
+				n := c.tid(string(x.ID))
 				pa = append(pa, n)
 			}
 			parts = append(parts, fmt.Sprintf("%d[%s|%s|%d]", id, joinInts(ch), joinInts(pa), v.Retries))
@@ -738,7 +787,7 @@ func runDagCase(c *DagCase, d *Driver) *DagResult {
 		line := "dag topo"
 		seen := map[int]bool{}
 		for _, v := range sorted {
-			n, _ := strconv.Atoi(string(v.ID))
+			n := c.tid(string(v.ID))
 			line += " " + strconv.Itoa(n)
 			for _, ch := range ig.v[n].children {
 				if !seen[ch] {
@@ -1056,31 +1105,38 @@ func (r *dagRun) realEntries(err error) []string {
 	}
 	out := []string{}
 	for _, e := range es.Errors {
+		own := -1
+		for t, te := range r.taskErrs {
+			if errors.Is(e, te) {
+				own = t
+			}
+		}
 		switch {
+		case own >= 0:
+			// the error a task function returned (it may itself wrap ErrorTaskSkipped or a context error)
+			out = append(out, "task:"+strconv.Itoa(own))
 		case errors.Is(e, dag.ErrorTaskSkipped):
-			out = append(out, "skipped:"+taskOfMsg(e.Error()))
+			out = append(out, "skipped:"+r.taskOfMsg(e.Error()))
 		case strings.Contains(e.Error(), "cancellation received"):
 			out = append(out, "cancelled")
 		default:
-			id := "?"
-			for t, te := range r.taskErrs {
-				if errors.Is(e, te) {
-					id = strconv.Itoa(t)
-				}
-			}
-			out = append(out, "task:"+id)
+			out = append(out, "task:?")
 		}
 	}
 	return out
 }
 
-func taskOfMsg(m string) string {
-	// "Task g:<id> error: ..."
-	m = strings.TrimPrefix(m, "Task g:")
-	if i := strings.Index(m, " "); i > 0 {
-		return m[:i]
+// taskOfMsg: the task an entry "Task g:<id> error: ..." speaks about (the longest ID that fits: IDs may
+// contain blanks and colons)
+func (r *dagRun) taskOfMsg(m string) string {
+	best, bestLen := "?", -1
+	for id := range r.sharedNow {
+		nm := r.c.tname(id)
+		if strings.HasPrefix(m, "Task g:"+nm+" error:") && len(nm) > bestLen {
+			best, bestLen = strconv.Itoa(id), len(nm)
+		}
 	}
-	return "?"
+	return best
 }
 
 // monitor evaluates C13-C16 directly on the recorded trace and the returned error
@@ -1434,6 +1490,7 @@ func genDagCase(r *rand.Rand, id int, prop string) *DagCase {
 	}
 	c.Buffer = r.Intn(4) == 0
 	c.BigOut = r.Intn(5) == 0
+	c.Names = r.Intn(5) == 0 && n < len(idWords)
 	if r.Intn(6) == 0 {
 		c.CancelAt = r.Intn(n + 1)
 	}
